@@ -504,5 +504,517 @@ theorem meet_sound {w : Nat} (hw : w ≤ 64) {x y : WInt} (hx : Shape w x) (hy :
   exact meet_W_sound hw a1 a2 a3 a4 hv h1 h2
 
 
+/-! ### widening -/
+
+theorem shape_W {w s e : Nat} (hs : s < 2 ^ w) (he : e < 2 ^ w) : Shape w (W w s e false) :=
+  Or.inr ⟨rfl, rfl, hs, he⟩
+
+theorem shape_mk2 {w : Nat} {a b : WrapInt} (ha : a.width = w) (hb : b.width = w)
+    (han : a.n < 2 ^ w) (hbn : b.n < 2 ^ w) : Shape w (mk2 a b) :=
+  Or.inr ⟨ha, hb, han, hbn⟩
+
+theorem addT_lt {w : Nat} (hw : w ≤ 64) (a b : WrapInt) (ha : a.width = w) : (addT a b).n < 2 ^ w := by
+  subst ha; exact red_mod_lt hw _
+theorem subT_lt {w : Nat} (hw : w ≤ 64) (a b : WrapInt) (ha : a.width = w) : (subT a b).n < 2 ^ w := by
+  subst ha; exact red_mod_lt hw _
+
+theorem join_bottom_left {x y : WInt} (hx : x.isBottom = true) : x.join y = y := by
+  have l1 : x.leq y = true := by simp [leq, hx]
+  simp [join, l1]
+
+theorem join_bottom_right {x y : WInt} (hx : x.isBottom = false) (hy : y.isBottom = true) :
+    x.join y = x := by
+  have yt : y.isTop = false := by simp [isTop, hy]
+  have l1 : x.leq y = false := by simp [leq, hx, hy, yt]
+  have l2 : y.leq x = true := by simp [leq, hy]
+  simp [join, l1, l2]
+
+/-- the join of two intervals of width `w` is `top()` or again of width `w` -/
+theorem join_shape {w : Nat} {x y : WInt} (hx : Shape w x) (hy : Shape w y) :
+    x.join y = top ∨ Shape w (x.join y) := by
+  cases hxb : x.isBottom
+  · cases hyb : y.isBottom
+    · obtain ⟨s1, e1, h1, h2, rfl⟩ := shape_cases hx hxb
+      obtain ⟨s2, e2, h3, h4, rfl⟩ := shape_cases hy hyb
+      unfold join
+      split
+      · exact Or.inr hy
+      split
+      · exact Or.inr hx
+      split
+      · exact Or.inl rfl
+      split
+      · exact Or.inr (shape_W h1 h4)
+      split
+      · exact Or.inr (shape_W h3 h2)
+      dsimp only
+      split
+      · exact Or.inr (shape_W h1 h4)
+      · exact Or.inr (shape_W h3 h2)
+    · rw [join_bottom_right hxb hyb]; exact Or.inr hx
+  · rw [join_bottom_left hxb]; exact Or.inr hy
+
+theorem join_top_left_isTop (z : WInt) : (top.join z).isTop = true := by
+  unfold join
+  by_cases hz : z.isTop = true
+  · have l1 : top.leq z = true := by simp [leq, hz]
+    simp [l1, hz]
+  · have hz' : z.isTop = false := by simpa using hz
+    have tt : top.isTop = true := by decide
+    have tb : top.isBottom = false := rfl
+    have l1 : top.leq z = false := by simp [leq, hz', tb, tt]
+    have l2 : z.leq top = true := by simp [leq, tt]
+    simp [l1, l2, tt]
+
+theorem isTop_not_bottom {x : WInt} (h : x.isTop = true) : x.isBottom = false := by
+  unfold isTop at h
+  cases hb : x.isBottom
+  · rfl
+  · simp [hb] at h
+
+theorem mem_of_isTop {w v : Nat} {x : WInt} (h : x.isTop = true) : mem w v x :=
+  ⟨isTop_not_bottom h, Or.inl h⟩
+
+/-- joining on the right keeps the members of the left operand -/
+theorem mem_join_left {w : Nat} (hw : w ≤ 64) {j z : WInt} (hj : j = top ∨ Shape w j) (hz : Shape w z)
+    {v : Nat} (hv : v < 2 ^ w) (hm : mem w v j) : mem w v (j.join z) := by
+  rcases hj with rfl | hj
+  · exact mem_of_isTop (join_top_left_isTop z)
+  · exact join_upper hw hj hz hv (Or.inl hm)
+
+theorem widen_sound {w : Nat} (hw : w ≤ 64) {x y : WInt} (hx : Shape w x) (hy : Shape w y)
+    {v : Nat} (hv : v < 2 ^ w) (hm : mem w v x ∨ mem w v y) : mem w v (x.widen y) := by
+  unfold widen
+  cases hxb : x.isBottom
+  · cases hyb : y.isBottom
+    · obtain ⟨s1, e1, h1, h2, rfl⟩ := shape_cases hx hxb
+      obtain ⟨s2, e2, h3, h4, rfl⟩ := shape_cases hy hyb
+      simp only [Bool.false_eq_true, if_false]
+      split
+      · exact mem_top w v
+      split
+      · next hl =>
+        rcases hm with h | h
+        · exact h
+        · exact leq_sound hw hy hx hv hl h
+      split
+      · exact mem_top w v
+      have hj : mem w v ((W w s1 e1 false).join (W w s2 e2 false)) := join_upper hw hx hy hv hm
+      have sj := join_shape hx hy
+      have r8 : ∀ k, (ofNatT k w).width = w := fun _ => rfl
+      split
+      · refine mem_join_left hw sj ?_ hv hj
+        exact shape_mk2 rfl rfl h1 (addT_lt hw _ _ rfl)
+      split
+      · refine mem_join_left hw sj ?_ hv hj
+        exact shape_mk2 rfl rfl (subT_lt hw _ _ rfl) h2
+      split
+      · next hl =>
+        have hy' : mem w v (W w s2 e2 false) := by
+          rcases hm with h | h
+          · exact leq_sound hw hx hy hv hl h
+          · exact h
+        refine join_upper hw hy ?_ hv (Or.inl hy')
+        exact shape_mk2 rfl rfl h3 (addT_lt hw _ _ rfl)
+      · exact mem_top w v
+    · simp only [Bool.false_eq_true, if_false, if_true]
+      rcases hm with h | h
+      · exact h
+      · exact absurd h (mem_bottom_false hyb)
+  · simp only [if_true]
+    rcases hm with h | h
+    · exact absurd h (mem_bottom_false hxb)
+    · exact h
+
+
+
+/-! ### unsigned division -/
+
+theorem mem_ord_iff {w : Nat} (hw : w ≤ 64) {a b v : Nat} (hab : a ≤ b) (hb : b < 2 ^ w) (hv : v < 2 ^ w) :
+    mem w v (W w a b false) ↔ a ≤ v ∧ v ≤ b := by
+  rw [mem_W hw (by omega) hb]
+  have s1 := D_spec (2 ^ w) a b; have s2 := D_spec (2 ^ w) a v
+  generalize 2 ^ w = M at *
+  omega
+
+/-- good accumulator of the loops: `top()` or of width `w` -/
+def Good (w : Nat) (x : WInt) : Prop := x = top ∨ Shape w x
+
+theorem join_good {w : Nat} {res q : WInt} (hr : Good w res) (hq : Shape w q) : Good w (res.join q) := by
+  rcases hr with rfl | hr
+  · -- top.join q is q (when q is top) or top
+    unfold join
+    by_cases hz : q.isTop = true
+    · have l1 : top.leq q = true := by simp [leq, hz]
+      simp [l1]; exact Or.inr hq
+    · have hz' : q.isTop = false := by simpa using hz
+      have tt : top.isTop = true := by decide
+      have tb : top.isBottom = false := rfl
+      have l1 : top.leq q = false := by simp [leq, hz', tb, tt]
+      have l2 : q.leq top = true := by simp [leq, tt]
+      simp [l1, l2]; exact Or.inl rfl
+  · exact join_shape hr hq
+
+theorem mem_join_right {w : Nat} (hw : w ≤ 64) {res q : WInt} (hr : Good w res) (hq : Shape w q)
+    {v : Nat} (hv : v < 2 ^ w) (hm : mem w v q) : mem w v (res.join q) := by
+  rcases hr with rfl | hr
+  · exact mem_of_isTop (join_top_left_isTop q)
+  · exact join_upper hw hr hq hv (Or.inr hm)
+
+/-- every element is an interval of width `w` (no condition on the end points) -/
+def AllW (w : Nat) (l : List WInt) : Prop := ∀ p ∈ l, ∃ a b, p = W w a b false
+
+theorem udiv_wrap {w : Nat} {a b : Nat} (hb : b ≠ 0) (ha : a < 2 ^ w) :
+    WrapInt.udiv ⟨w, a⟩ ⟨w, b⟩ = some ⟨w, a / b⟩ := by
+  have hz : (⟨w, b⟩ : WrapInt).isZero = false := by simp [isZero, hb]
+  simp only [WrapInt.udiv, if_true, hz, Bool.false_eq_true, if_false]
+  rw [red_small (Nat.lt_of_le_of_lt (Nat.div_le_self _ _) ha)]
+
+/-- `unsigned_div` of a piece by a divisor piece: shape of the answer -/
+theorem unsignedDiv_shape {w : Nat} {s e c d : Nat} (hs : s < 2 ^ w) (he : e < 2 ^ w) {q : WInt}
+    (h : unsignedDiv? (W w s e false) (W w c d false) = some q) :
+    q = W w (s / d) (e / c) false ∧ d ≠ 0 ∧ c ≠ 0 := by
+  unfold unsignedDiv? at h
+  by_cases hd : d = 0
+  · subst hd; simp [WrapInt.udiv, isZero] at h
+  by_cases hc : c = 0
+  · subst hc; simp [WrapInt.udiv, isZero] at h
+  simp only [udiv_wrap hd hs, udiv_wrap hc he] at h
+  injection h with h
+  exact ⟨h.symm, hd, hc⟩
+
+theorem unsignedDiv_sound {w : Nat} (hw : w ≤ 64) {s e c d a b : Nat} (he : e < 2 ^ w)
+    (hc : 1 ≤ c)
+    (ha : s ≤ a ∧ a ≤ e) (hb : c ≤ b ∧ b ≤ d) :
+    mem w (a / b) (W w (s / d) (e / c) false) := by
+  have h1 : s / d ≤ a / b := Nat.div_le_div ha.1 hb.2 (by omega)
+  have h2 : a / b ≤ e / c := Nat.div_le_div ha.2 hb.1 (by omega)
+  have h3 : e / c < 2 ^ w := Nat.lt_of_le_of_lt (Nat.div_le_self _ _) he
+  rw [mem_ord_iff hw (by omega) h3 (by omega)]
+  exact ⟨h1, h2⟩
+
+theorem unsignedDiv_q_shape {w : Nat} {s e : Nat} (hs : s < 2 ^ w) (he : e < 2 ^ w) {d' q : WInt}
+    (hd : ∃ c d, d' = W w c d false) (h : unsignedDiv? (W w s e false) d' = some q) : Shape w q := by
+  obtain ⟨c, d, rfl⟩ := hd
+  obtain ⟨rfl, _, _⟩ := unsignedDiv_shape hs he h
+  exact shape_W (Nat.lt_of_le_of_lt (Nat.div_le_self _ _) hs) (Nat.lt_of_le_of_lt (Nat.div_le_self _ _) he)
+
+/-- innermost loop: the result is good, keeps the members of the accumulator and contains every
+    quotient interval -/
+theorem udivDs_spec {w : Nat} (hw : w ≤ 64) {s e : Nat} (hs : s < 2 ^ w) (he : e < 2 ^ w) :
+    ∀ (ds : List WInt) (res r : WInt), AllW w ds → Good w res →
+      udivDs (W w s e false) ds res = some r →
+      Good w r ∧ (∀ v, v < 2 ^ w → mem w v res → mem w v r) ∧
+      (∀ d' ∈ ds, ∃ q, unsignedDiv? (W w s e false) d' = some q ∧
+          ∀ v, v < 2 ^ w → mem w v q → mem w v r) := by
+  intro ds
+  induction ds with
+  | nil =>
+    intro res r _ hg h
+    simp only [udivDs, Option.some.injEq] at h
+    subst h
+    exact ⟨hg, fun _ _ h => h, fun d' hd => by cases hd⟩
+  | cons d ds ih =>
+    intro res r hall hg h
+    unfold udivDs at h
+    cases hq : unsignedDiv? (W w s e false) d with
+    | none => rw [hq] at h; cases h
+    | some q =>
+      rw [hq] at h
+      simp only at h
+      have hdW := hall d (List.mem_cons_self ..)
+      have hqs : Shape w q := unsignedDiv_q_shape hs he hdW hq
+      have hg' : Good w (res.join q) := join_good hg hqs
+      have hall' : AllW w ds := fun p hp => hall p (List.mem_cons_of_mem _ hp)
+      obtain ⟨g, mono, each⟩ := ih (res.join q) r hall' hg' h
+      refine ⟨g, ?_, ?_⟩
+      · intro v hv hm
+        apply mono v hv
+        rcases hg with rfl | hg
+        · exact mem_of_isTop (join_top_left_isTop q)
+        · exact join_upper hw hg hqs hv (Or.inl hm)
+      · intro d' hd'
+        rcases List.mem_cons.mp hd' with rfl | hd'
+        · exact ⟨q, hq, fun v hv hm => mono v hv (mem_join_right hw hg hqs hv hm)⟩
+        · exact each d' hd'
+
+theorem ofNatT_zero_n (w : Nat) : (ofNatT 0 w).n = 0 := by
+  unfold ofNatT; split <;> simp
+
+theorem ofNatT_one_n {w : Nat} (h1 : 1 ≤ w) : (ofNatT 1 w).n = 1 := one_n h1
+
+theorem ofNatT_zero (w : Nat) : ofNatT 0 w = ⟨w, 0⟩ := by
+  unfold ofNatT; split <;> simp
+theorem ofNatT_one {w : Nat} (h1 : 1 ≤ w) : ofNatT 1 w = ⟨w, 1⟩ := by
+  unfold ofNatT; rw [one_n h1]
+
+theorem trim_allW {w c d : Nat} {ds : List WInt}
+    (h : trimZero? (W w c d false) = some ds) : AllW w ds := by
+  unfold trimZero? at h
+  simp only at h
+  split at h
+  · cases h
+  · next w' hw' =>
+    have : w' = w := by
+      unfold getBitwidth? at hw'
+      simp only [Bool.false_eq_true, if_false] at hw'
+      split at hw'
+      · cases hw'
+      · injection hw' with h; exact h.symm
+    subst this
+    split at h
+    · split at h
+      · injection h with h; subst h
+        intro p hp; simp only [List.mem_singleton] at hp; subst hp; exact ⟨_, _, rfl⟩
+      · split at h
+        · injection h with h; subst h
+          intro p hp; simp only [List.mem_singleton] at hp; subst hp; exact ⟨_, _, rfl⟩
+        · split at h
+          · injection h with h; subst h
+            intro p hp
+            simp only [List.mem_cons, List.mem_nil_iff, or_false] at hp
+            rcases hp with rfl | rfl <;> exact ⟨_, _, rfl⟩
+          · injection h with h; subst h
+            intro p hp; simp only [List.mem_singleton] at hp; subst hp; exact ⟨_, _, rfl⟩
+    · injection h with h; subst h
+      intro p hp; cases hp
+
+theorem trim_cover {w : Nat} (h1w : 1 ≤ w) (hw : w ≤ 64) {c d b : Nat} (hcd : c ≤ d) (hd : d < 2 ^ w)
+    {ds : List WInt} (h : trimZero? (W w c d false) = some ds) (hb1 : 1 ≤ b) (hb : c ≤ b ∧ b ≤ d) :
+    ∃ c' d', W w c' d' false ∈ ds ∧ 1 ≤ c' ∧ c' ≤ b ∧ b ≤ d' := by
+  have hbM : b < 2 ^ w := by omega
+  have hmem : mem w b (W w c d false) := (mem_ord_iff hw hcd hd hbM).mpr hb
+  unfold trimZero? at h
+  simp only at h
+  split at h
+  · cases h
+  · next w' hw' =>
+    have : w' = w := by
+      unfold getBitwidth? at hw'
+      simp only [Bool.false_eq_true, if_false] at hw'
+      split at hw'
+      · cases hw'
+      · injection hw' with h; exact h.symm
+    subst this
+    have hz : (single (ofNatT 0 w')) = W w' 0 0 false := by
+      rw [ofNatT_zero]; rfl
+    split at h
+    · simp only [ofNatT_zero_n, beq_iff_eq] at h
+      split at h
+      · next hc0 =>
+        injection h with h; subst h
+        refine ⟨1, d, ?_, Nat.le_refl 1, hb1, hb.2⟩
+        simp only [List.mem_singleton]
+        show W w' 1 d false = mk2 (ofNatT 1 w') ⟨w', d⟩
+        rw [ofNatT_one h1w]; rfl
+      · next hc0 =>
+        split at h
+        · next hd0 => omega
+        · split at h
+          · next hat =>
+            -- `at zero` is impossible for 1 ≤ c ≤ d < M unless top
+            exfalso
+            have hc0' : c ≠ 0 := hc0
+            rw [ofNatT_zero] at hat
+            have := (at_W_iff hw (by omega : c < 2 ^ w') hd (Nat.pow_pos (by decide) : 0 < 2 ^ w')).mp hat
+            unfold A at this
+            have s1 := D_spec (2 ^ w') c d; have s2 := D_spec (2 ^ w') c 0
+            generalize 2 ^ w' = M at *
+            omega
+          · injection h with h; subst h
+            have hc0' : c ≠ 0 := hc0
+            exact ⟨c, d, List.mem_singleton.mpr rfl, by omega, hb.1, hb.2⟩
+    · next heq =>
+      -- the piece equals the singleton 0: it has no member ≥ 1
+      exfalso
+      simp only [Bool.not_eq_true', Bool.not_eq_false] at heq
+      rw [hz] at heq
+      unfold WInt.eq at heq
+      have hl : (W w' c d false).leq (W w' 0 0 false) = true := by
+        rcases Bool.and_eq_true_iff.mp heq with ⟨a, _⟩; exact a
+      have h0 : (0:Nat) < 2 ^ w' := Nat.pow_pos (by decide)
+      have := leq_W_sound hw (by omega : c < 2 ^ w') hd h0 h0 hbM hl hmem
+      rw [mem_ord_iff hw (Nat.le_refl 0) h0 hbM] at this
+      omega
+
+/-- middle loop -/
+theorem udivYs_spec {w : Nat} (hw : w ≤ 64) {s e : Nat} (hs : s < 2 ^ w) (he : e < 2 ^ w) :
+    ∀ (ys : List WInt) (res r : WInt), AllW w ys → Good w res →
+      udivYs (W w s e false) ys res = some r →
+      Good w r ∧ (∀ v, v < 2 ^ w → mem w v res → mem w v r) ∧
+      (∀ cj ∈ ys, ∃ ds, trimZero? cj = some ds ∧ ∀ d' ∈ ds, ∃ q,
+          unsignedDiv? (W w s e false) d' = some q ∧ ∀ v, v < 2 ^ w → mem w v q → mem w v r) := by
+  intro ys
+  induction ys with
+  | nil =>
+    intro res r _ hg h
+    simp only [udivYs, Option.some.injEq] at h
+    subst h
+    exact ⟨hg, fun _ _ h => h, fun cj hc => by cases hc⟩
+  | cons cj ys ih =>
+    intro res r hall hg h
+    unfold udivYs at h
+    cases hds : trimZero? cj with
+    | none => rw [hds] at h; cases h
+    | some ds =>
+      rw [hds] at h
+      simp only at h
+      cases hr1 : udivDs (W w s e false) ds res with
+      | none => rw [hr1] at h; cases h
+      | some res' =>
+        rw [hr1] at h
+        simp only at h
+        obtain ⟨c, d, rfl⟩ := hall cj (List.mem_cons_self ..)
+        obtain ⟨g1, mono1, each1⟩ := udivDs_spec hw hs he ds res res' (trim_allW hds) hg hr1
+        have hall' : AllW w ys := fun p hp => hall p (List.mem_cons_of_mem _ hp)
+        obtain ⟨g, mono, each⟩ := ih res' r hall' g1 h
+        refine ⟨g, fun v hv hm => mono v hv (mono1 v hv hm), ?_⟩
+        intro cj' hcj'
+        rcases List.mem_cons.mp hcj' with rfl | hcj'
+        · refine ⟨ds, hds, fun d' hd' => ?_⟩
+          obtain ⟨q, hq, hqm⟩ := each1 d' hd'
+          exact ⟨q, hq, fun v hv hm => mono v hv (hqm v hv hm)⟩
+        · exact each cj' hcj'
+
+/-- every element is an interval of width `w` with reduced end points -/
+def AllWB (w : Nat) (l : List WInt) : Prop :=
+  ∀ p ∈ l, ∃ a b, p = W w a b false ∧ a < 2 ^ w ∧ b < 2 ^ w
+
+/-- outer loop -/
+theorem udivXs_spec {w : Nat} (hw : w ≤ 64) (ycuts : List WInt) (hy : AllW w ycuts) :
+    ∀ (xs : List WInt) (res r : WInt), AllWB w xs → Good w res →
+      udivXs ycuts xs res = some r →
+      Good w r ∧ (∀ v, v < 2 ^ w → mem w v res → mem w v r) ∧
+      (∀ ci ∈ xs, ∀ cj ∈ ycuts, ∃ ds, trimZero? cj = some ds ∧ ∀ d' ∈ ds, ∃ q,
+          unsignedDiv? ci d' = some q ∧ ∀ v, v < 2 ^ w → mem w v q → mem w v r) := by
+  intro xs
+  induction xs with
+  | nil =>
+    intro res r _ hg h
+    simp only [udivXs, Option.some.injEq] at h
+    subst h
+    exact ⟨hg, fun _ _ h => h, fun ci hc => by cases hc⟩
+  | cons ci xs ih =>
+    intro res r hall hg h
+    unfold udivXs at h
+    obtain ⟨s, e, rfl, hs, he⟩ := hall ci (List.mem_cons_self ..)
+    cases hr1 : udivYs (W w s e false) ycuts res with
+    | none => rw [hr1] at h; cases h
+    | some res' =>
+      rw [hr1] at h
+      simp only at h
+      obtain ⟨g1, mono1, each1⟩ := udivYs_spec hw hs he ycuts res res' hy hg hr1
+      have hall' : AllWB w xs := fun p hp => hall p (List.mem_cons_of_mem _ hp)
+      obtain ⟨g, mono, each⟩ := ih res' r hall' g1 h
+      refine ⟨g, fun v hv hm => mono v hv (mono1 v hv hm), ?_⟩
+      intro ci' hci' cj hcj
+      rcases List.mem_cons.mp hci' with rfl | hci'
+      · obtain ⟨ds, hds, hall⟩ := each1 cj hcj
+        refine ⟨ds, hds, fun d' hd' => ?_⟩
+        obtain ⟨q, hq, hqm⟩ := hall d' hd'
+        exact ⟨q, hq, fun v hv hm => mono v hv (hqm v hv hm)⟩
+      · exact each ci' hci' cj hcj
+
+/-- `unsigned_split` of a proper interval: the pieces do not cross the south pole and cover it -/
+theorem usplit_spec {w : Nat} (h1w : 1 ≤ w) (hw : w ≤ 64) {s e : Nat} (hs : s < 2 ^ w) (he : e < 2 ^ w)
+    {l : List WInt} (h : unsignedSplit? (W w s e false) = some l) :
+    (∀ p ∈ l, ∃ a b, p = W w a b false ∧ a ≤ b ∧ b < 2 ^ w) ∧
+    (∀ v, v < 2 ^ w → mem w v (W w s e false) → ∃ a b, W w a b false ∈ l ∧ a ≤ v ∧ v ≤ b) := by
+  have hM : 2 ≤ 2 ^ w := two_le_pow h1w
+  unfold unsignedSplit? at h
+  simp only [Bool.false_eq_true, if_false] at h
+  split at h
+  · cases h
+  · next b hb =>
+    have hbw : b = w ∧ (W w s e false).isTop = false := by
+      unfold getBitwidth? at hb
+      simp only [Bool.false_eq_true, if_false] at hb
+      split at hb
+      · cases hb
+      · next ht => injection hb with hb; exact ⟨hb.symm, by simpa using ht⟩
+    obtain ⟨rfl, hnt⟩ := hbw
+    rw [isTop_W hw hs he] at hnt
+    have hnt' : ¬ D (2 ^ b) s e = 2 ^ b - 1 := by simpa using hnt
+    split at h
+    · -- crosses the south pole: [s, 2^w-1] and [0, e]
+      injection h with h; subst h
+      constructor
+      · intro p hp
+        simp only [List.mem_cons, List.mem_nil_iff, or_false] at hp
+        rcases hp with rfl | rfl
+        · exact ⟨s, 2 ^ b - 1, rfl, by omega, by omega⟩
+        · exact ⟨0, e, rfl, Nat.zero_le _, he⟩
+      · intro v hv hm
+        rw [mem_W hw hs he] at hm
+        have s1 := D_spec (2 ^ b) s e; have s2 := D_spec (2 ^ b) s v
+        by_cases hsv : s ≤ v
+        · refine ⟨s, 2 ^ b - 1, List.mem_cons_self .., hsv, by omega⟩
+        · refine ⟨0, e, List.mem_cons_of_mem _ (List.mem_cons_self ..), Nat.zero_le _, ?_⟩
+          generalize 2 ^ b = M at *
+          omega
+    · next hl =>
+      injection h with h; subst h
+      have hl' : ¬ (unsignedLimit b).leq (W b s e false) = true := hl
+      have hlim : unsignedLimit b = W b (2 ^ b - 1) 0 false := rfl
+      rw [hlim, leq_W_iff hw (by omega) (by omega) hs he] at hl'
+      unfold T A at hl'
+      have s1 := D_spec (2 ^ b) s e; have s2 := D_spec (2 ^ b) (2 ^ b - 1) 0
+      have s3 := D_spec (2 ^ b) s (2 ^ b - 1); have s4 := D_spec (2 ^ b) s 0
+      have s5 := D_spec (2 ^ b) (2 ^ b - 1) s; have s6 := D_spec (2 ^ b) (2 ^ b - 1) e
+      have hse : s ≤ e := by
+        generalize 2 ^ b = M at *
+        omega
+      constructor
+      · intro p hp
+        simp only [List.mem_singleton] at hp
+        subst hp
+        exact ⟨s, e, rfl, hse, he⟩
+      · intro v hv hm
+        rw [mem_ord_iff hw hse he hv] at hm
+        exact ⟨s, e, List.mem_singleton.mpr rfl, hm.1, hm.2⟩
+
+/-- `UDiv` over-approximates the unsigned quotients -/
+theorem udiv_sound {w : Nat} (h1w : 1 ≤ w) (hw : w ≤ 64) {x y r : WInt} (hx : Shape w x) (hy : Shape w y)
+    (h : x.udiv y = some r) {a b : Nat} (ha : a < 2 ^ w) (hb : b < 2 ^ w) (hb1 : 1 ≤ b)
+    (hma : mem w a x) (hmb : mem w b y) : mem w (a / b) r := by
+  obtain ⟨s1, e1, h1, h2, rfl⟩ := shape_cases hx hma.1
+  obtain ⟨s2, e2, h3, h4, rfl⟩ := shape_cases hy hmb.1
+  unfold udiv at h
+  simp only [Bool.or_self, Bool.false_eq_true, if_false] at h
+  split at h
+  · injection h with h; subst h; exact mem_top w _
+  · cases hc1 : unsignedSplit? (W w s1 e1 false) with
+    | none => rw [hc1] at h; cases h
+    | some cuts =>
+      cases hc2 : unsignedSplit? (W w s2 e2 false) with
+      | none => rw [hc1, hc2] at h; cases h
+      | some ycuts =>
+        rw [hc1, hc2] at h
+        simp only at h
+        obtain ⟨ord1, cov1⟩ := usplit_spec h1w hw h1 h2 hc1
+        obtain ⟨ord2, cov2⟩ := usplit_spec h1w hw h3 h4 hc2
+        have allx : AllWB w cuts := fun p hp => by
+          obtain ⟨a', b', rfl, hab, hb'⟩ := ord1 p hp
+          exact ⟨a', b', rfl, by omega, hb'⟩
+        have ally : AllW w ycuts := fun p hp => by
+          obtain ⟨a', b', rfl, _, _⟩ := ord2 p hp
+          exact ⟨a', b', rfl⟩
+        obtain ⟨_, _, each⟩ := udivXs_spec hw ycuts ally cuts bottom r allx (Or.inr (Or.inl rfl)) h
+        obtain ⟨sa, ea, hci, ha1, ha2⟩ := cov1 a ha hma
+        obtain ⟨c, d, hcj, hb2, hb3⟩ := cov2 b hb hmb
+        obtain ⟨_, _, hcjeq, hcd, hd⟩ := ord2 _ hcj
+        obtain ⟨_, _, hcieq, hsea, hea⟩ := ord1 _ hci
+        have e1' := congrArg (fun p : WInt => (p.start.n, p.stop.n)) hcjeq
+        have e2' := congrArg (fun p : WInt => (p.start.n, p.stop.n)) hcieq
+        simp only [Prod.mk.injEq] at e1' e2'
+        obtain ⟨rfl, rfl⟩ := e1'
+        obtain ⟨rfl, rfl⟩ := e2'
+        obtain ⟨ds, hds, hall⟩ := each _ hci _ hcj
+        obtain ⟨c', d', hd'mem, hc'1, hc'b, hbd'⟩ := trim_cover h1w hw hcd hd hds hb1 ⟨hb2, hb3⟩
+        obtain ⟨q, hq, hqm⟩ := hall _ hd'mem
+        obtain ⟨rfl, _, _⟩ := unsignedDiv_shape (by omega : sa < 2 ^ w) hea hq
+        apply hqm (a / b) (Nat.lt_of_le_of_lt (Nat.div_le_self _ _) ha)
+        exact unsignedDiv_sound hw hea hc'1 ⟨ha1, ha2⟩ ⟨hc'b, hbd'⟩
+
 end WInt
 end Crab
